@@ -16,7 +16,8 @@ CLAIMS = {
              "as composed op sequences from the empty cache; z3 decides "
              "'returned segments == blob[p:min(p+n,L)]', the cache bound and "
              "the cache-content invariant on every path. Holds for all values "
-             "in the bound; nothing is claimed outside it.",
+             "in the bound; nothing is claimed outside it."
+             ' Two file objects of one URL created by the real __init__ with different chunk sizes are independent.',
         note="Trusted: z3, the symx engine, the RFC 7233 model of the server "
              "(validated each run against the unmodified HTTPFile on concrete "
              "scenarios). Not covered: transport, h5py-over-HTTP equality.",
@@ -57,7 +58,8 @@ CLAIMS["C15"] = dict(
          "one or two filters written to one file are loaded back with equal "
          "name, axes, inversion, identifier and points."
          " Integer-typed x data with fractional y data (numpy's truncating assignment cast is modelled)."
-         ' Polygons are built through the real constructor and _check_data.',
+         ' Polygons are built through the real constructor and _check_data.'
+         ' The text round trip uses negative, tiny and huge coordinates.',
     note="Trusted: z3/nlsat, symx, the hand model of the 10-line "
          "_points_in_poly wrapper. Exact reals, not IEEE doubles; vertex "
          "count bounded; names with leading/trailing blanks or line breaks "
@@ -99,7 +101,8 @@ CLAIMS["C03"] = dict(
          "filter.all == stateless specification and that the invariant is "
          "re-established, which covers setting histories of any length."
          " The real PolygonFilter.hash (which Filter.update uses to detect edits) is proved to differ whenever axes, points or the inversion flag differ."
-         ' The dataset stub separates available from loaded (computed) features.',
+         ' The dataset stub separates available from loaded (computed) features.'
+         ' The real Filter.reset() between two applications is part of the histories; the pre-state carries the invalid-events array of the previous application.',
     note="Trusted: z3, symx, numpy shim, stubs for the dataset/config/"
          "PolygonFilter objects (polygon classification is an uninterpreted "
          "boolean per (filter, version, event); C15 covers it). Bounds: 2 "
@@ -124,7 +127,8 @@ CLAIMS["C06"] = dict(
          "and the documented scenario precedence. Three deliberate sanity "
          "checks are reported as KNOWN-FINDING."
          " Histories also set / replace temporary features (ml_class from temporary ml_score features, emodulus with a temporary temp feature) and check the documented precedence of the temperature sources."
-         " `ds.features` must agree with `feat in ds`.",
+         " `ds.features` must agree with `feat in ds`."
+         ' A plug-in whose recipe lists one configuration section in two entries is included.',
     note="Trusted: z3, symx, md5-injectivity stub, uninterpreted numeric "
          "kernels (crosstalk inversion is modelled exactly). Feature data "
          "are constant; plugin/ML features and hierarchy children are "
@@ -190,7 +194,8 @@ CLAIMS["C10"] = dict(
          "each requested output path is absent or complete and that inputs "
          "are never unlinked, renamed over, truncated, written or opened "
          "writable (also when the output path aliases an input)."
-         " Output paths may hold an unloadable leftover before the task starts; exports may emit warnings (split writes a warnings log).",
+         " Output paths may hold an unloadable leftover before the task starts; exports may emit warnings (split writes a warnings log)."
+         ' Paths have a spelling and a file identity (output given as another spelling of the input); whole-file copy operations and already-compressed inputs are modelled.',
     note="Trusted: symx, the file-system model and the recording stubs for "
          "h5py.File, RTDCWriter, new_dataset/export, rtdc_copy (each performs "
          "a fixed number of numbered writes on the handle it was given; "
@@ -214,7 +219,8 @@ CLAIMS["C09"] = dict(
          "features == features available in every input, time/frame "
          "continued by the acquisition offset, logs of every source kept, no "
          "exception."
-         ' Join inputs may store a non-rapid ancillary feature or only be able to compute it.',
+         ' Join inputs may store a non-rapid ancillary feature or only be able to compute it.'
+         ' Every source carries a second, dclab-named log.',
     note="Trusted: z3, symx (SStr = per-path concrete length, symbolic "
          "characters), stubs for new_dataset/export/RTDCWriter, "
          "time.strptime/mktime linear in the parsed fields, round() and "
@@ -239,7 +245,8 @@ CLAIMS["C11"] = dict(
          "stand-in. CrossHair conditions that time out are reported as "
          "undecided (obligations > discharged), never as success."
          " The real load_from_file runs on a text with symbolic letter case of section/key and symbolic digits; sequence-valued [user] metadata of length 1..3 survives the real writer / parse_config."
-         " `Configuration(files=...)` rejects keys that are not defined for a section.",
+         " `Configuration(files=...)` rejects keys that are not defined for a section."
+         " Explicit [fluorescence] channel count vs. the writer's automatic completion (real rectify_metadata) is included.",
     note="Trusted: z3, symx, CrossHair 0.0.110. Strings are bounded to 2-3 "
          "printable ASCII characters; numpy/bytes value representations and "
          "h5py attribute type changes are outside the claim. In the quick "
@@ -263,7 +270,8 @@ CLAIMS["C18"] = dict(
          "matrix."
          " get_volume wrapper (>= 4 points give a volume; repeating a vertex changes nothing); remove_duplicates == removal of consecutive (circular) duplicates."
          " 16-bit gray values; wrap-around of narrow integer casts is modelled."
-         ' Contours given as float32/float16: dtype-flow obligation that coordinate products are formed in 64 bit (numerical witness in the replay).',
+         ' Contours given as float32/float16: dtype-flow obligation that coordinate products are formed in 64 bit (numerical witness in the replay).'
+         ' LazyContourList access histories (symbolic indices, cache of 1..2 contours) return the contour of the requested mask.',
     note="Trusted: z3/nlsat, symx, numpy shim (roll, diff, resize, symbolic "
          "3x3 inverse); np.std/np.percentile are uninterpreted. NOT covered "
          "(not encodable here, see not-applicable parts in DESIGN.md): "
@@ -355,7 +363,8 @@ CLAIMS["C07"] = dict(
          "events (mapped basins) - by induction the composed map of any "
          "export chain."
          " Exports of hierarchy children (depth 1..2): the stored basin map equals the root indices of the exported events; summaries offered by a mapped proxy must be those of the mapped events."
-         ' Mapped basin features are also read with negative integer indices.',
+         ' Mapped basin features are also read with negative integer indices.'
+         ' Upstream map values range up to 70000 (narrow integer casts wrap visibly).',
     note="Trusted: z3, symx, origin/dataset stubs, h5py stand-in. Path "
          "resolution, remote basins, identifier checks (C14) and the "
          "innate-over-basin lookup order are outside this check.",
@@ -396,7 +405,8 @@ CLAIMS["C04"] = dict(
          "kind == parent restricted in order, manual array == complement of "
          "the ghost set of excluded ROOT events (incl. hidden ones coming "
          "back), child filter == manual & range."
-         ' util.hashobj is a structural stand-in (nested lists of integers, boolean arrays, hashes).',
+         ' util.hashobj is a structural stand-in (nested lists of integers, boolean arrays, hashes).'
+         ' Every refresh also observes the reported maximum of the temporary feature and converts a child scalar to float32 before reading it.',
     note="Trusted: z3, symx, numpy shim, root stub. Bounds: 3 (thorough 4) "
          "root events, depth 1..3 (thorough ..4), <= 9 (12) operations. "
          "Re-inclusion of excluded events and edits on a stale child are "
@@ -447,7 +457,8 @@ CLAIMS["C12"] = dict(
          "and that get_quantile_levels keeps the interpolation grid finite "
          "and strictly monotonic."
          " In get_quantile_levels +-inf is a third kind of value: neither NaN nor inf events reach the interpolation."
-         ' For the Gaussian estimator z3 also proves that it is constructed from exactly the selected valid events (as a multiset).',
+         ' For the Gaussian estimator z3 also proves that it is constructed from exactly the selected valid events (as a multiset).'
+         ' Default bins of kde_histogram are proved to be max(5, Doane number) of the respective axis.',
     note="NOT decided (floating-point library code, not encodable): that "
          "the spline / Gaussian / product-kernel estimators and the "
          "percentile itself compute the reference values; "
